@@ -437,12 +437,12 @@ func e2eBehaviour(c *e2eCtx) error {
 		run := proj.RunGoat(c.goat, src, nil, "track")
 		if run.Exit != 0 || isPanic(run.Stderr) {
 			c.count("track-failed(C01)")
-			c.violate("C01", "goat track failed: "+lastLine(run.Stderr), rp(map[string]any{"stderr": tail(run.Stderr, 1500)}))
+			c.violate("C01,C14", "goat track failed: "+lastLine(run.Stderr), rp(map[string]any{"stderr": tail(run.Stderr, 1500)}))
 			return
 		}
 		if ok, out := buildMains(src, binI, rb); !ok {
 			c.count("instrumented-build-failed(C01)")
-			c.violate("C01", "instrumented project does not build: "+firstLine(out, ""), rp(map[string]any{"build": tail(out, 1500)}))
+			c.violate("C01,C14", "instrumented project does not build: "+firstLine(out, ""), rp(map[string]any{"build": tail(out, 1500)}))
 			return
 		}
 		var mainFiles []string
